@@ -60,4 +60,145 @@ PROPERTIES = {
         "rule": E1_RULE + "; stateful pruning on (per-thread observation hash, session table, epoch); capacities 1, 2, 3",
         "assumptions": SC_ASSUME,
     },
+    "C02": {
+        "title": "single-threaded behaviour equals an ordered byte-string map",
+        "jobs": [{"bin": "s_map", "args": ["all", "--oracle", "model"], "shards": 16}],
+        "accept": r"model:|crash",
+        "deadline": {"quick": 120, "thorough": 1300},
+        "rule": "explicit-state search: a state is an operation history replayed on a fresh real tree, deduplicated by the canonical "
+                "state string of the walker (node kinds, flags, permutation with slot numbers, keys, values, stale slots, links); "
+                "closure over 4-key universes from the empty storage, bounded depth from 70 seed and drained shapes, re-insertion orders, "
+                "binary keys; non-trivial = state with more than one node; transitions = operations applied to a frontier state",
+        "assumptions": ["one session, no concurrency", "version counters are not part of the canonical state (a sequential future depends on them only through equality inside one call)"],
+    },
+    "C03": {
+        "title": "range scan returns exactly the interval",
+        "jobs": [{"bin": "e_scan", "args": ["scan"], "shards": 16}],
+        "accept": r"scan:",
+        "deadline": {"quick": 120, "thorough": 600},
+        "rule": "exhaustive product: 1024 subset trees of a 10-key universe (1-3 layers) + 16 multi-node seeds x all (l_key, l_end, r_key, r_end) "
+                "over endpoints derived from the stored keys (k, k minus last byte, k+NUL, last byte +-1, cut at 8/16, empty, 0xFF x9, "
+                "256/257/264/265 byte keys) x max_size {0,1,2,3} x right_to_left, by tree_instance and by name; every case is distinct",
+        "assumptions": ["quiescent tree, one session", "endpoints are derived from stored keys, not all byte strings"],
+    },
+    "C05": {
+        "title": "node-version sets detect later inserts",
+        "jobs": [{"bin": "e_nvset", "args": [], "shards": 16}, {"bin": "e_scan", "args": ["iscan"], "shards": 16}, {"bin": "e_scan", "args": ["scan"], "shards": 16}],
+        "accept": r"nvset",
+        "deadline": {"quick": 120, "thorough": 600},
+        "rule": "exhaustive product (tree, read, absent key of the covered interval), each on a fresh replay: read (scan with every range/max_size/"
+                "direction, get-miss, iscan consumed for 1, 2, 4 or all entries), collect the set, insert, compare every recorded pair; plus "
+                "non-emptiness of the set on the whole C03/C10 argument domain; non-trivial = case whose key lies in the covered interval",
+        "assumptions": ["quiescent tree, one session"],
+    },
+    "C08": {
+        "title": "tree stays coherent",
+        "jobs": [{"bin": "s_map", "args": ["all", "--oracle", "walk+api"], "shards": 12},
+                 {"bin": "h_tree", "args": ["struct", "--oracle", "struct"], "shards": 4}],
+        "accept": r"walk:|api:|struct:|crash",
+        "deadline": {"quick": 150, "thorough": 1300},
+        "rule": "sequential: every state of the C02 search is walked (sorted unique entries, separators bound subtrees, parent/child and "
+                "prev/next links, no lock or dirty bit, no reachable deleted/retired node) and get = scan = reversed backward iscan = model; "
+                "concurrent: the same walk at the end of every schedule of the structural-writer scenarios",
+        "assumptions": SC_ASSUME,
+    },
+    "C10": {
+        "title": "cursor API enumerates the interval in both directions",
+        "jobs": [{"bin": "e_scan", "args": ["iscan"], "shards": 8},
+                 {"bin": "h_tree", "args": ["iscanc", "--oracle", "scan+phantom"], "shards": 16}],
+        "accept": r"iscan:|phantom:|crash|deadlock|livelock",
+        "deadline": {"quick": 180, "thorough": 1500},
+        "rule": "sequential sentence: exhaustive product of the C03 domain x direction x early_abort through iscan_open/iscan_next/full_key(); "
+                "concurrent sentence: " + E1_RULE,
+        "assumptions": SC_ASSUME,
+    },
+    "C11": {
+        "title": "everything allocated is released",
+        "jobs": [{"bin": "s_map", "args": ["all", "--oracle", "leak"], "shards": 8},
+                 {"bin": "s_storage", "args": ["--oracle", "leak"], "shards": 8},
+                 {"bin": "h_life", "args": [], "shards": 8},
+                 {"bin": "h_tree", "args": ["struct", "--oracle", "leak"], "shards": 4},
+                 {"bin": "h_tree", "args": ["ddl"], "shards": 4}],
+        "accept": r"leak:|crash",
+        "deadline": {"quick": 150, "thorough": 1300},
+        "rule": "allocation monitor (all operator new/delete): after delete_storage/destroy/fin and the drain of the retire queues no node or "
+                "value block allocated by the history is left, no block is freed twice, sized/aligned deletes match; checked on every history "
+                "of the sequential searches, every lifecycle history and every schedule of the concurrent NOROOT/ddl/struct scenarios",
+        "assumptions": ["library-owned memory = blocks allocated with an alignment argument (nodes, values) plus iscan contexts; glog/std temporaries are not counted"],
+    },
+    "C12": {
+        "title": "put reports exactly the changed border nodes",
+        "jobs": [{"bin": "e_misc", "args": ["putinfo"], "shards": 16}],
+        "accept": r"putinfo:",
+        "deadline": {"quick": 60, "thorough": 300},
+        "rule": "exhaustive product (17 seed shapes x new keys around every stored key, layer-creating keys, both overloads) + overwrite of every key; "
+                "oracle = diff of the version words of all border nodes before/after",
+        "assumptions": ["quiescent tree, one session"],
+    },
+    "C13": {
+        "title": "storages are isolated namespaces",
+        "jobs": [{"bin": "s_storage", "args": ["--oracle", "storage"], "shards": 12},
+                 {"bin": "h_tree", "args": ["ddl"], "shards": 4}],
+        "accept": r"storage:|ddl:|crash|deadlock|livelock",
+        "deadline": {"quick": 120, "thorough": 1300},
+        "rule": "sequential: explicit-state search over create/delete/find/list/put/get/remove/scan by name, 6 names (empty, binary, 9 and 300 bytes, "
+                "shared prefixes), model = map of maps, depth 6 (thorough 9); concurrent: " + E1_RULE,
+        "assumptions": SC_ASSUME,
+    },
+    "C15": {
+        "title": "values round-trip; updates are atomic",
+        "jobs": [{"bin": "e_misc", "args": ["values"], "shards": 16},
+                 {"bin": "h_tree", "args": ["overwrite", "--oracle", "lin+scan"], "shards": 16}],
+        "accept": r"value:|lin:|scan:|iscan:|crash",
+        "deadline": {"quick": 120, "thorough": 900},
+        "rule": "lengths {0..3 MiB+1 boundary classes} x alignments 1..4096 x {insert, overwrite} x {layer 0, layer 1} x get/scan/iscan/created_value_ptr, "
+                "inline pointer values; concurrent: reader vs overwrite of the same key with values of different length, " + E1_RULE,
+        "assumptions": SC_ASSUME + ["value lengths and alignments are boundary classes, not all 2^32 lengths"],
+    },
+    "C16": {
+        "title": "init/fin cycles are repeatable",
+        "jobs": [{"bin": "h_life", "args": [], "shards": 16}],
+        "accept": r"life:|crash|deadlock|livelock",
+        "deadline": {"quick": 150, "thorough": 900},
+        "rule": "every lifecycle history I.<body>.F.I.P.F (and two repetitions for short bodies) with bodies over {create+put, enter, leave, remove, "
+                "epoch tick, gc tick, destroy, probe} up to length 3 (thorough 4); real init()/fin(), the spawned epoch and gc threads are "
+                "scheduler threads that run only on tick operations; one deterministic execution per history",
+        "assumptions": ["background threads are driven by explicit ticks (no real time)"],
+    },
+    "C17": {
+        "title": "version word protocol",
+        "jobs": [{"bin": "e_misc", "args": ["version"]}, {"bin": "h_proto_s3", "args": ["version"]}],
+        "accept": r"version:|crash|deadlock|livelock",
+        "deadline": {"quick": 120, "thorough": 900},
+        "rule": "values: 1600 boundary words x 27 operations, sequences up to length 2 (thorough 3) against independent field arithmetic; "
+                "schedules: 2-3 lockers + 1-2 stable-version readers on one word, stateful exhaustive search (unbounded for 2 lockers x 1 round)",
+        "assumptions": SC_ASSUME + ["counter values are boundary classes {0,1,2,2^29-2,2^29-1}"],
+    },
+    "C18": {
+        "title": "key comparisons agree with bytewise order",
+        "jobs": [{"bin": "e_misc", "args": ["compare"], "shards": 16}],
+        "accept": r"compare:",
+        "deadline": {"quick": 60, "thorough": 600},
+        "rule": "all pairs of the 16402 (slice,length) tuples over {00,01,FF} (quick: stride 37) for the key_tuple operators, all 767^2 pairs over {00,FF} "
+                "for border lookup/rank and interior route/insert on hand-built nodes, rearrange on 3-subsets, split side decision and API order "
+                "for windows of 15 binary keys + every 16th key",
+        "assumptions": ["agreement with one reference total order implies transitivity/trichotomy"],
+    },
+    "C19": {
+        "title": "permutation word encodes a valid ordering",
+        "jobs": [{"bin": "e_misc", "args": ["perm"]}, {"bin": "h_proto_s3", "args": ["perm"]}],
+        "accept": r"perm:",
+        "deadline": {"quick": 60, "thorough": 300},
+        "rule": "closure of the real permutation under insert_rank(every rank, every free slot)/delete_rank for n <= 5 (thorough 6: 4.0M words), "
+                "rotation families for n = 6..15, split sequence, split_dest; single atomic publication: reader vs writer schedules (all)",
+        "assumptions": ["orderings for n > 6 are a structured family"],
+    },
+    "C20": {
+        "title": "mem_usage reports the real shape and footprint",
+        "jobs": [{"bin": "s_map", "args": ["all", "--oracle", "mem"], "shards": 16}, {"bin": "e_misc", "args": ["values"], "shards": 8}],
+        "accept": r"mem_usage:",
+        "deadline": {"quick": 120, "thorough": 1300},
+        "rule": "every canonical state of the C02 search: independent walk (nodes per depth, node sizes + allocated value sizes from the allocation monitor), used <= reserved",
+        "assumptions": ["one session, quiescent"],
+    },
 }
